@@ -614,9 +614,9 @@ Proof.
   - constructor; constructor.
   - destruct (x ?= z)%Z eqn:E.
     + constructor; auto.
-    + apply Z.compare_lt_iff in E. constructor; [constructor; auto|].
+    + rewrite Z.compare_lt_iff in E. constructor; [constructor; auto|].
       constructor; auto. rewrite Forall_forall in *. intros u Hu. specialize (Hz u Hu). lia.
-    + apply Z.compare_gt_iff in E. constructor; auto.
+    + rewrite Z.compare_gt_iff in E. constructor; auto.
       rewrite Forall_forall in *. intros u Hu. apply ins_In in Hu as [->|Hu]; auto.
 Qed.
 
@@ -651,3 +651,87 @@ Qed.
 
 Lemma canon_union l m x : In x (canon (l ++ m)) <-> In x l \/ In x m.
 Proof. rewrite canon_In. apply in_app_iff. Qed.
+
+(** ** Merging commutes with observation
+
+    The model keeps a set as the list of its elements in union order; the harness hands it
+    sorted duplicate-free lists, the code has real sets.  Observing the result of a merge is
+    the same whether the operands are given in any representation or in observed form, so
+    (with [canon_unique]) the outcome does not depend on how a set is written down. *)
+
+Definition oobs (f : option pval) : option pval :=
+  match f with Some x => Some (obs x) | None => None end.
+
+Lemma obs_obj fs : obs (VObj fs) = VObj (map oobs fs).
+Proof. reflexivity. Qed.
+
+Lemma canon_idem l : canon (canon l) = canon l.
+Proof. apply canon_unique. intros x. apply canon_In. Qed.
+
+Lemma canon_app_canon l m : canon (canon l ++ canon m) = canon (l ++ m).
+Proof.
+  apply canon_unique. intros x. rewrite !in_app_iff, !canon_In. tauto.
+Qed.
+
+Lemma obs_idem : forall v, obs (obs v) = obs v.
+Proof.
+  induction v as [x|l|l|fs IH] using pval_ind'; try reflexivity.
+  - simpl. rewrite canon_idem. reflexivity.
+  - rewrite !obs_obj. f_equal. rewrite map_map.
+    induction IH as [|[x|] fs Hx _ IHfs]; simpl; try rewrite IHfs; try reflexivity.
+    simpl in Hx. rewrite Hx. reflexivity.
+Qed.
+
+Definition obs_merge_at (x : pval) : Prop :=
+  forall ow y, option_map obs (merge ow x y) = option_map obs (merge ow (obs x) (obs y)).
+
+Lemma mfield_obs ow f g : optP obs_merge_at f ->
+  option_map oobs (mfield ow f g) = option_map oobs (mfield ow (oobs f) (oobs g)).
+Proof.
+  intros Hf. destruct f as [x|], g as [y|]; simpl; try reflexivity.
+  - specialize (Hf ow y). simpl in Hf.
+    destruct (merge ow x y), (merge ow (obs x) (obs y)); simpl in *; congruence.
+  - rewrite obs_idem. reflexivity.
+  - rewrite obs_idem. reflexivity.
+Qed.
+
+Lemma mgo_obs ow fs : Forall (optP obs_merge_at) fs -> forall gs,
+  option_map (map oobs) (mgo ow fs gs) = option_map (map oobs) (mgo ow (map oobs fs) (map oobs gs)).
+Proof.
+  induction 1 as [|f fs Hf _ IH]; intros gs.
+  - simpl. rewrite map_map. f_equal. apply map_ext. intros [x|]; simpl; [rewrite obs_idem|]; reflexivity.
+  - destruct gs as [|g gs].
+    + simpl. f_equal. f_equal.
+      * destruct f; simpl; [rewrite obs_idem|]; reflexivity.
+      * rewrite map_map. apply map_ext. intros [x|]; simpl; [rewrite obs_idem|]; reflexivity.
+    + cbn [mgo map]. pose proof (mfield_obs ow f g Hf) as Hh. specialize (IH gs).
+      destruct (mfield ow f g) as [h|], (mfield ow (oobs f) (oobs g)) as [h'|]; simpl in Hh; try discriminate;
+        [|reflexivity].
+      destruct (mgo ow fs gs) as [r|], (mgo ow (map oobs fs) (map oobs gs)) as [r'|]; simpl in *; try discriminate;
+        [|reflexivity].
+      congruence.
+Qed.
+
+Lemma obs_merge : forall x, obs_merge_at x.
+Proof.
+  induction x as [a|l|l|fs IH] using pval_ind'; intros ow y.
+  - rewrite !merge_atom. simpl. rewrite merge_atom. destruct ow; simpl; [rewrite obs_idem|]; reflexivity.
+  - destruct y as [b|m|m|gs]; reflexivity.
+  - destruct y as [b|m|m|gs]; try reflexivity.
+    simpl obs. rewrite !merge_set. simpl. rewrite canon_app_canon. reflexivity.
+  - destruct y as [b|m|m|gs].
+    + rewrite obs_obj. change (merge ow (VObj fs) (VAtom b)) with (if ow then Some (VAtom b) else @None pval).
+      change (merge ow (VObj (map oobs fs)) (obs (VAtom b))) with (if ow then Some (VAtom b) else @None pval).
+      reflexivity.
+    + rewrite obs_obj. change (merge ow (VObj fs) (VList m)) with (if ow then Some (VList m) else @None pval).
+      change (merge ow (VObj (map oobs fs)) (obs (VList m))) with (if ow then Some (VList m) else @None pval).
+      reflexivity.
+    + rewrite obs_obj. change (merge ow (VObj fs) (VSet m)) with (if ow then Some (VSet m) else @None pval).
+      change (merge ow (VObj (map oobs fs)) (obs (VSet m))) with (if ow then Some (VSet (canon m)) else @None pval).
+      destruct ow; simpl; [rewrite canon_idem|]; reflexivity.
+    + 
+      rewrite !obs_obj, !merge_obj. pose proof (mgo_obs ow fs IH gs) as H.
+      destruct (mgo ow fs gs) as [r|], (mgo ow (map oobs fs) (map oobs gs)) as [r'|];
+        cbn [option_map] in *; try discriminate; [|reflexivity].
+      rewrite !obs_obj. congruence.
+Qed.
